@@ -769,7 +769,7 @@ fn process_attribute<'input>(
         if !is_xml_ns_uri {
             ctx.doc.namespaces.push_ns(Some(local), value)?;
         }
-    } else if local == XMLNS {
+    } else if prefix.is_empty() && local == XMLNS {
         // The xml namespace MUST NOT be declared as the default namespace.
         if value.as_str() == NS_XML_URI {
             let pos = ctx.doc.text_pos_at(range.start);
